@@ -49,7 +49,7 @@ def run_lines(ftype, fname, body_lines, *, fast=True, trace=False, snap_line=Non
                 box[0] = (canon.context_dump(ctx, forget), impl._scope_sig(ctx.scope))
     if fast:
         r = impl.run_text(fname, body, debug=debug, trace=trace, snap=cb, pre_tokens=pre, line0=npre + 1,
-                          keep_tokens=keep_tokens)
+                          keep_tokens=keep_tokens, pretext=pretext)
     else:
         r = impl.run_text(fname, pretext + body, debug=debug, trace=trace, snap=cb, keep_tokens=keep_tokens)
     return r, box[0], pretext + body
@@ -214,7 +214,7 @@ def eval_body(task):
     """Worker: run preamble + body text; returns (errs, sigs, exc, status, stdout)."""
     ftype, fname, body = task[:3]
     pre, npre, pretext = pre_tokens(ftype, fname)
-    r = impl.run_text(fname, body, pre_tokens=pre, line0=npre + 1)
+    r = impl.run_text(fname, body, pre_tokens=pre, line0=npre + 1, pretext=pretext)
     errs = [d for d in r.diags if d[0] == "Error"]
     sigs = diag_signatures(pretext + body, fname, errs) if errs else []
     return errs, sigs, r.exc, r.status, r.stdout
